@@ -10,6 +10,7 @@ CONSTANTS
   CorruptInit = TRUE
   StaleFix = TRUE
   WithCrash = FALSE
+  CreateMayFail = FALSE
   WithBackend = FALSE
 INVARIANTS PrintDone InvAccounting InvReserved InvMapList InvIndexedHasFile InvBacklog
 CHECK_DEADLOCK FALSE
